@@ -154,8 +154,9 @@ TWINS_EXPECTED = 1
 
 
 def twins(tier, seed):
-    # dropping one problem of a family must change the refutation condition
-    return [{'family': 'twin', 'kind': 'strong', 'left': 'p. q.', 'right': 'p :- q. q :- r. r.', 'rep': 'tau-star',
+    # dropping one problem of a family must change the refutation condition (every conjecture of this task is refutable
+    # on its own, so it does not matter which problem happens to come last)
+    return [{'family': 'twin', 'kind': 'strong', 'left': 'p :- q.', 'right': 'r :- q. s :- q. t :- q.', 'rep': 'tau-star',
              'direction': 'forward', 'label': 'twin', 'twin_mode': 'drop-problem'}]
 
 
